@@ -11,6 +11,7 @@ mod revoke_dup;
 mod dead_target;
 mod runner;
 mod once;
+mod state;
 
 fn main()
 {
@@ -23,6 +24,7 @@ fn main()
         "dead_target" => dead_target::run(&args[1..]),
         "runner" => runner::run(&args[1..]),
         "once" => once::run(&args[1..]),
+        "state" => state::run(&args[1..]),
         _ => { eprintln!("unknown scenario {}", args[0]); std::process::exit(3); }
     };
     println!("{}", res.json);
